@@ -63,7 +63,7 @@ structure TokVal where
   ival : Int := 0
   fval : Nat := 0
   sval : Bytes := []
-deriving Repr, Inhabited
+deriving Repr, Inhabited, DecidableEq
 
 /-- `libconfig_scanctx_current_filename` -/
 def ScanState.currentFilename (s : ScanState) : Option Bytes :=
